@@ -349,10 +349,50 @@ def c04(tier, seed):
     def final(out, cov):
         import checks_large
         checks_large.run_large("C04", tier, seed, out, cov)
+        acceptable_error_phase(tier, seed, out, cov)
 
     return run_prop("C04", tier, seed, ops, judge, final=final,
                     rule="RandomGen (class and RandomGen(0) instance) asked for 1, 5, 3, 300 sequences; every returned sequence "
                          "replayed through MCTrace; non-trivial = at least one sequence returned")
+
+
+def acceptable_error_phase(tier, seed, out, cov):
+    """beyond C04's statement (which fixes the acceptable error at 0): RandomGen(e) for e = 1, 2 on unweighted flat designs
+    whose crossing contains a complex-window factor (where the rejection step checks the crossing) - every returned
+    sequence satisfies Design!VerdictErr(e): all clauses as documented, at most e duplicated occurrences in the crossings"""
+    if common.replay_cases():
+        return
+    rng = random.Random(seed + 4)
+    pool = gen.systematic_flat() + gen.systematic_corner() + gen.random_flat(rng, 40 if tier == "quick" else 400)
+    cases = [c for c in pool if c["block"]["op"] == "Cross" and not has_weights(c)
+             and any(gen.is_complex(c["factors"], i) for i in c["block"]["crossing"])]
+    if tier == "quick":
+        cases = cases[:40]
+    used = {1: 0, 2: 0}
+    total = {1: 0, 2: 0}
+    for e in (1, 2):
+        res = pipeline.run_design([copy_case(c) for c in cases],
+                                  lambda c: [{"op": "synth", "strategy": "RandomGen%d" % e, "n": 12, "timeout": 20}],
+                                  stats=cov.stats, do_enum=False, op_timeout=30, err=e, also_strict=True)
+        for r in res:
+            if not r.built or len(r.obs) < 2 or r.obs[1].get("status") != "returned":
+                continue
+            bad = {}
+            for ei, v in enumerate(r.verdicts[1]):
+                total[e] += 1
+                if r.strict.get(1, {}).get(ei) not in (None, "ok"):
+                    used[e] += 1
+                if v != "ok":
+                    bad.setdefault(v, []).append(ei)
+            for v, eis in bad.items():
+                out.append(violation("C04", "invalid", r.case, strategy="RandomGen(%d)" % e, verdict=v, n=12, count=len(eis),
+                                     example=r.obs[1]["exps"][eis[0]]["s"], budget=e))
+    cov.notes["acceptable_error"] = {"designs": len(cases), "sequences": total, "sequences_using_the_budget": used}
+
+
+def copy_case(c):
+    import copy
+    return copy.deepcopy(c)
 
 
 def rejection_free(case):
